@@ -70,64 +70,81 @@ def _once(case, acc, tree, labels):
         if key in case:
             kwargs[key] = case[key]
     exporter = MermaidExporter(start, **kwargs)
-    lines = list(exporter)
     ctx = "start=%s stop=%s hide=%s maxlevel=%r shape=%s names=%r" % (case["start"], case["stop"], case["hide"], maxlevel, case["shape"], names)
     indent = " " * case.get("indent", 0)
     header = "%s %s" % (case.get("graph", "graph"), case.get("name", "TD"))
-    if not lines or lines[0] != header:
-        raise Violation("header", "%s: first line %r expected %r" % (ctx, lines[:1], header))
-    body = lines[1:]
     options = case.get("options") or []
-    if body[: len(options)] != [indent + o for o in options]:
-        raise Violation("options", "%s: option lines %r" % (ctx, body[: len(options)]))
-    body = body[len(options):]
-    declared, edges, _ = expected_structure(tree, start, stop_ids, hide_ids, maxlevel)
-    if len(body) < len(declared):
-        raise Violation("node-lines", "%s: %d lines for %d declared nodes: %r" % (ctx, len(body), len(declared), body))
-    ident = {}
-    for node, line in zip(declared, body):
-        rest = nodefunc(node) if nodefunc else '["%s"]' % esc(node.name)
-        if not line.startswith(indent) or not line.endswith(rest):
-            raise Violation("node-line", "%s: %r should be indent + id + %r" % (ctx, line, rest))
-        nid = line[len(indent): len(line) - len(rest)]
-        if nodename:
-            if nid != nodename(node):
-                raise Violation("node-identifier", "%s: identifier %r expected %r" % (ctx, nid, nodename(node)))
-        elif not re.fullmatch(r"N\d+", nid):
-            raise Violation("node-identifier", "%s: default identifier %r in %r" % (ctx, nid, line))
-        ident[id(node)] = nid
-    if len(set(ident.values())) != len(declared):
-        raise Violation("identifier-collision", "%s: identifiers %r are not distinct" % (ctx, sorted(ident.values())))
-    want = collections.Counter()
-    for p, c in edges:
-        want["%s%s%s%s" % (indent, ident[id(p)], edgefunc(p, c) if edgefunc else "-->", ident[id(c)])] += 1
-    got = collections.Counter(body[len(declared):])
-    if want - got:
-        raise Violation("missing-edge", "%s: missing edge lines %r; got %r" % (ctx, sorted(want - got), body[len(declared):]))
-    if got - want:
-        raise Violation("extra-edge", "%s: unexpected lines %r (declared ids %r)" % (ctx, sorted(got - want), sorted(ident.values())))
+
+    def verify(lines, known_ident, phase):
+        """Complete oracle for one iteration of the exporter against the CURRENT tree and admission sets."""
+        where = "%s [%s]" % (ctx, phase)
+        if not lines or lines[0] != header:
+            raise Violation("header", "%s: first line %r expected %r" % (where, lines[:1], header))
+        body = lines[1:]
+        if body[: len(options)] != [indent + o for o in options]:
+            raise Violation("options", "%s: option lines %r" % (where, body[: len(options)]))
+        body = body[len(options):]
+        declared, edges, _ = expected_structure(tree, start, stop_ids, hide_ids, maxlevel)
+        if len(body) < len(declared):
+            raise Violation("node-lines", "%s: %d lines for %d declared nodes: %r" % (where, len(body), len(declared), body))
+        ident = {}
+        for node, line in zip(declared, body):
+            rest = nodefunc(node) if nodefunc else '["%s"]' % esc(node.name)
+            if not line.startswith(indent) or not line.endswith(rest):
+                raise Violation("node-line", "%s: %r should be indent + id + %r" % (where, line, rest))
+            nid = line[len(indent): len(line) - len(rest)]
+            if nodename:
+                if nid != nodename(node):
+                    raise Violation("node-identifier", "%s: identifier %r expected %r" % (where, nid, nodename(node)))
+            elif not re.fullmatch(r"N\d+", nid):
+                raise Violation("node-identifier", "%s: default identifier %r in %r" % (where, nid, line))
+            if id(node) in known_ident and known_ident[id(node)] != nid:
+                raise Violation("identifier-stability", "%s: node %r was %s in an earlier iteration of the same exporter and is %s now" % (where, node.name, known_ident[id(node)], nid))
+            ident[id(node)] = nid
+        if len(set(ident.values())) != len(declared):
+            raise Violation("identifier-collision", "%s: identifiers %r are not distinct" % (where, sorted(ident.values())))
+        want = collections.Counter()
+        for p, c in edges:
+            want["%s%s%s%s" % (indent, ident[id(p)], edgefunc(p, c) if edgefunc else "-->", ident[id(c)])] += 1
+        got = collections.Counter(body[len(declared):])
+        if want - got:
+            raise Violation("missing-edge", "%s: missing edge lines %r; got %r" % (where, sorted(want - got), body[len(declared):]))
+        if got - want:
+            raise Violation("extra-edge", "%s: unexpected lines %r (declared ids %r)" % (where, sorted(got - want), sorted(ident.values())))
+        return declared, edges, ident
+
+    lines = list(exporter)
+    declared, edges, ident = verify(lines, {}, "first iteration")
     if list(exporter) != lines:
         raise Violation("re-iteration", "%s: second iteration differs (identifiers must be stable)" % ctx)
-    if declared and not nodename:
-        # interleaved iterations of the same exporter, and an iteration after the tree has grown
+    if declared:
+        # interleaved iterations of the same exporter
         it1 = iter(exporter)
         head = [next(it1) for _ in range(1 + len(options) + len(declared))]
         second = list(exporter)
         if head + list(it1) != lines or second != lines:
-            raise Violation("identifier-stability", "%s: interleaved iterations of one exporter disagree about identifiers" % ctx)
+            raise Violation("identifier-stability", "%s: interleaved iterations of one exporter disagree" % ctx)
+        known = dict(ident)
+        # the same exporter after the tree has grown ...
         extra = Node("extra-first-child")
         index_of[id(extra)] = len(tree)
+        tree.append(extra)
         start.children = (extra,) + start.children
         try:
-            declared2, _, _ = expected_structure(tree + [extra], start, stop_ids, hide_ids, maxlevel)
-            body2 = list(exporter)[1 + len(options):]
-            for node, line in zip(declared2, body2):
-                rest = nodefunc(node) if nodefunc else '["%s"]' % esc(node.name)
-                nid = line[len(indent): len(line) - len(rest)]
-                if id(node) in ident and ident[id(node)] != nid:
-                    raise Violation("identifier-stability", "%s: node %r is %s in the first export and %s after a sibling was added" % (ctx, node.name, ident[id(node)], nid))
+            known.update(verify(list(exporter), known, "after a first child was added")[2])
+            # ... and after the admitted set has shrunk (stateful filter_/stop predicates are legitimate)
+            victim = declared[-1]
+            if case["hide"] and victim is not start:
+                hide_ids.add(id(victim))
+                verify(list(exporter), known, "after filter_ started to hide node %r" % (victim.name,))
+                hide_ids.discard(id(victim))
+            if case["stop"] and victim is not start:
+                stop_ids.add(id(victim))
+                verify(list(exporter), known, "after stop started to cut at node %r" % (victim.name,))
+                stop_ids.discard(id(victim))
         finally:
             extra.parent = None
+            tree.pop()
     if case.get("to_file"):
         fd, path = tempfile.mkstemp(suffix=".md", prefix="vf-c13-")
         os.close(fd)
@@ -213,7 +230,7 @@ def random_cases(draw):
 def plan(tier, seed):
     nshards = 16
     max_nodes = QUICK_N if tier == "quick" else THOROUGH_N
-    examples = 80 if tier == "quick" else 1200
+    examples = 150 if tier == "quick" else 1200
     tasks = [{"engine": "enum", "max_nodes": max_nodes, "index": i, "count": nshards * 2} for i in range(nshards * 2)]
     tasks += [{"engine": "hyp", "examples": examples, "seed": seed * 1000 + i} for i in range(nshards)]
     return tasks
